@@ -521,3 +521,127 @@ def delayed_ping_spin_family(report, prop="C08", label="delayed-ping"):
     report.obligation("corr:" + label, "correspondence", ok, f"{len(scripts)} scripted scenarios, every response compared")
     report.obligation("mon:" + label, "monitor", mon, "whenever the reported service time is now or earlier, a service call makes progress")
     return ok and mon
+
+
+def trailing_empty_field_family(report, prop="C08", label="trailing-empty-field"):
+    """packets whose last field is empty (a PUBLISH with a present but empty payload, the CONNECT of a client without client
+    id) written through buffers that fill up exactly where the packet's last byte goes.  A minimal driver services the engine,
+    reports a write completion for every buffer that carried bytes, and stops when a service call produces nothing.  What the
+    application and the server see must not depend on the buffer size: the same history with a 4096-byte buffer is the
+    reference - the QoS 0 result arrives with the write completion of the packet's last byte, the acknowledgement / CONNACK
+    of a completely written packet is accepted, a QoS 2 publish completely on the wire is retransmitted (DUP, same id) on a
+    resumed session."""
+    import gv
+    from gv import resp_fields
+    proc = gv.Proc([gv.HARNESS_BIN], "harness")
+    def drive(lines, t, cap, pre, log):
+        """service / write completion until nothing more is produced; returns the time afterwards"""
+        for _ in range(40):
+            q = f"eng.svc t={t} cap={cap} prefill={pre}"
+            r = proc.ask(q); log.append((q, r))
+            f, _ = resp_fields(r)
+            t += 1
+            if f.get("res") != "ok" or f.get("bytes", "x") == "x":
+                break
+            q = f"eng.wc t={t}"
+            r = proc.ask(q); log.append((q, r))
+        return t
+    def run(v, kind, cap, pre):
+        connack = "x20020000" if v == "311" else "x2003000000"
+        resumed = "x20020100" if v == "311" else "x2003010000"
+        cid = "" if kind == "connect" else " cid=x63"
+        log = []
+        def say(q):
+            log.append((q, proc.ask(q)))
+        say("session.reset")
+        say(f"eng.new v={v} policy=all drain=none pingto=100000 resolver=none rmax=2 | ka=0 rejoin=always{cid}")
+        say("eng.open t=0 deadline=30000")
+        t = drive(None, 0, 4096, 0, log)
+        say(f"eng.data t={t} b={connack}")
+        if kind == "connect":
+            say(f"eng.close t={t + 1}")
+            say(f"eng.open t={t + 2} deadline=60000")
+            t = drive(None, t + 3, cap, pre, log)
+            say(f"eng.data t={t} b={connack}")
+            say("eng.snap")
+            return log
+        qos = {"qos0": 0, "qos1": 1, "qos2": 2}[kind]
+        say(f"eng.pub t={t} | publish pid=0 topic=x742f31 qos={qos} retain=0 payload=x")
+        t = drive(None, t + 1, cap, pre, log)
+        if qos == 0:
+            say(f"eng.nst t={t}")
+        elif qos == 1:
+            say(f"eng.data t={t} b=x40020001")
+        else:
+            say(f"eng.close t={t}")
+            say(f"eng.open t={t + 1} deadline=90000")
+            t = drive(None, t + 2, 4096, 0, log)
+            say(f"eng.data t={t} b={resumed}")
+            t = drive(None, t + 1, 4096, 0, log)
+        say("eng.snap")
+        return log
+    def outcome(log):
+        out_bytes, comps, data_res, nst = "", [], [], []
+        for q, r in log:
+            f, _ = resp_fields(r)
+            if q.startswith(("eng.svc", "eng.wc", "eng.data", "eng.close", "eng.pub")):
+                if f.get("bytes", "x") != "x":
+                    out_bytes += f["bytes"][1:]
+                comps += [x for x in f.get("comps", "").split(",") if x]
+            if q.startswith("eng.data"):
+                data_res.append(f.get("res"))
+            if q.startswith("eng.nst"):
+                nst.append("never" if f.get("next") == "never" else "some")
+        snap, _ = resp_fields(log[-1][1])
+        return {"bytes": out_bytes, "comps": sorted(comps), "data": data_res, "state": snap.get("state"), "ops": snap.get("ops"), "pwcops": snap.get("pwcops"), "nst": nst}
+    cases = []
+    for v in ("5", "311"):
+        for kind in ("qos0", "qos1", "qos2", "connect"):
+            if kind == "connect" and v == "5":
+                continue   # an MQTT 5 CONNECT ends with the (empty) client id as well; the alignment is the same
+            for cap in range(4, 26):
+                for pre in (0, 1, 3):
+                    if pre + 4 <= cap:
+                        cases.append((v, kind, cap, pre))
+    ok, mon, bad = True, True, 0
+    refs = {}
+    all_reqs, spans = [], []
+    results = []
+    for v, kind, cap, pre in cases:
+        if (v, kind) not in refs:
+            refs[(v, kind)] = run(v, kind, 4096, 0)
+        log = run(v, kind, cap, pre)
+        results.append(log)
+        spans.append((len(all_reqs), len(all_reqs) + len(log)))
+        all_reqs += [q for q, _ in log]
+    proc.close()
+    model = driver_batch(all_reqs)
+    for k, (v, kind, cap, pre) in enumerate(cases):
+        log = results[k]
+        a0, a1 = spans[k]
+        report.case("|".join(q for q, _ in log[1:]))
+        report.traces_validated += 1
+        report.count(label + "." + kind)
+        for j, (q, r) in enumerate(log):
+            if canon(r) != canon(model[a0 + j]):
+                ok = False
+                if bad < 4:
+                    report.add_finding(Finding(prop, "corr:" + label, {"clause": "model-vs-impl", "verb": q.split(" ")[0]},
+                                               "trailing-empty-field scenario: implementation and model disagree", [x for x, _ in log[1:j + 1]] + ["# impl:  " + r[:300], "# model: " + model[a0 + j][:300]], has_input=False))
+                bad += 1
+                break
+        tight, ample = outcome(log), outcome(refs[(v, kind)])
+        if tight != ample:
+            mon = False
+            diff = ", ".join(f"{key}: {tight[key]} instead of {ample[key]}" for key in tight if tight[key] != ample[key] and key != "bytes")
+            if tight["bytes"] != ample["bytes"]:
+                diff += f"; bytes on the wire differ ({len(tight['bytes']) // 2} vs {len(ample['bytes']) // 2} bytes)"
+            if bad < 10:
+                report.add_finding(Finding(prop, "mon:" + label, {"clause": "outcome-depends-on-buffer-size", "kind": kind, "version": v},
+                                           f"MQTT {'3.1.1' if v == '311' else '5'} {kind}: with a {cap}-byte buffer ({pre} bytes taken) the history ends differently from the same history with a 4096-byte buffer: {diff}",
+                                           [x for x, _ in log[1:]] + ["# outcome:   " + str({k2: v2 for k2, v2 in tight.items() if k2 != 'bytes'})[:300], "# reference: " + str({k2: v2 for k2, v2 in ample.items() if k2 != 'bytes'})[:300]]))
+            bad += 1
+    report.count(label + ".scenarios", len(cases))
+    report.obligation("corr:" + label, "correspondence", ok, f"{len(cases)} driven histories, every response compared with the model's")
+    report.obligation("mon:" + label, "monitor", mon, "bytes, completions, verdicts on the server's packets and the final state are those of the same history with an ample buffer")
+    return ok and mon
